@@ -94,9 +94,7 @@ func (h *c20Host) instances() map[string]c20InstInfo {
 	out := map[string]c20InstInfo{}
 	for n, c := range h.mc.decoratorControllers {
 		info := c20InstInfo{ptr: uintptr(unsafe.Pointer(c)), obj: c}
-		if c.dc.Spec.ResyncPeriodSeconds != nil {
-			info.specID = int(*c.dc.Spec.ResyncPeriodSeconds) - c20ResyncBase
-		}
+		info.specID = c20SpecID(c.dc.Spec.ResyncPeriodSeconds, c.dc.Spec.Hooks != nil, func() *v1alpha1.Hook { return c.dc.Spec.Hooks.Sync })
 		out[n] = info
 	}
 	return out
@@ -115,10 +113,10 @@ func (h *c20Host) remove(realName string) {
 }
 
 // apply stores the controller object built from s (a decorator has no CRD lookup).
-func (h *c20Host) apply(realName, short string, s *c20Spec, crd string, touch int) {
+func (h *c20Host) apply(realName, short string, s *c20Spec, crd string, touch int, gen int64, uid string) {
 	dc := &v1alpha1.DecoratorController{
 		TypeMeta:   metav1.TypeMeta{APIVersion: "metacontroller.k8s.io/v1alpha1", Kind: "DecoratorController"},
-		ObjectMeta: metav1.ObjectMeta{Name: realName, Labels: map[string]string{"touch": strconv.Itoa(touch)}, Generation: int64(s.ID)},
+		ObjectMeta: metav1.ObjectMeta{Name: realName, Labels: map[string]string{"touch": strconv.Itoa(touch)}, Generation: c20Generation(s, gen), UID: types.UID(uid)},
 	}
 	for _, p := range s.Parents {
 		rule := v1alpha1.DecoratorControllerResourceRule{}
@@ -135,7 +133,7 @@ func (h *c20Host) apply(realName, short string, s *c20Spec, crd string, touch in
 		}
 		dc.Spec.Resources = append(dc.Spec.Resources, rule)
 	}
-	rs := int32(c20ResyncBase + s.ID)
+	rs := c20Resync(s)
 	dc.Spec.ResyncPeriodSeconds = &rs
 	for _, k := range s.Children {
 		rule := v1alpha1.DecoratorControllerAttachmentRule{}
@@ -174,6 +172,14 @@ func (h *c20Host) stopAll() {
 			_ = h.reconcile(n)
 		}()
 	}
+}
+
+// c20RecordQueue replaces the work queue of a stopped instance by a recording one:
+// whatever still enqueues on its behalf becomes visible.
+func c20RecordQueue(obj interface{}) *vh.RecQueue {
+	q := &vh.RecQueue{}
+	obj.(*decoratorController).queue = q
+	return q
 }
 
 // the hook answer of a sync on behalf of instance by
